@@ -35,3 +35,45 @@ def oracle_fd(R, tier, seed):
     if not core.FD_RESULTS:
         O = R.oracle("finite-differences"); O["cases"] += 1
         O["failures"].append({"key": "C01:oracle:no-jacobians-recorded", "case": "the streams recorded no Jacobian"})
+
+
+def oracle_wingbox_untwisted(R, tier, seed):
+    """WingboxGeometry at exactly untwisted sections (flat, unswept or swept planforms - the default meshes): the reported
+    d fem_twists / d mesh compared with central differences of the code's own compute.  The theorem
+    C01_WingboxGeometry_fem_twists needs every section twisted; this is the replay of its refutation at zero twist."""
+    import numpy as np
+    from .. import gen
+    from openaerostruct.structures.wingbox_geometry import WingboxGeometry
+    O = R.oracle("WingboxGeometry.untwisted-sections")
+    rng = gen.stable_rng(seed, "c01wbflat")
+    saved = core.FD_ENABLED; core.FD_ENABLED = False
+    try:
+        for kind in ("left", "full"):
+            for (nx, ny) in (((2, 3),) if tier == "quick" else ((2, 3), (3, 5))):
+                mesh = gen.rand_mesh(rng, nx, ny, kind, plain=True, offset=False)
+                mesh[:, :, 0] += np.abs(mesh[:, :, 1]) * float(rng.uniform(0.0, 0.4))       # swept, still flat
+                surf = gen.wingbox_surface(mesh, symmetry=(kind != "full"))
+                o, J, p = core.run_comp(WingboxGeometry(surface=surf), {"mesh": mesh}, outputs=["fem_twists"])
+                Jr = J[("fem_twists", "mesh")].reshape(ny - 1, nx, ny, 3)
+
+                def f(m):
+                    p.set_val("mesh", m); p.run_model(); return np.array(p.get_val("fem_twists")).copy()
+                h = 1e-4 * float(np.abs(mesh[-1, :, 0] - mesh[0, :, 0]).min())
+                cd = np.zeros_like(Jr)
+                for i in (0, nx - 1):
+                    for j in range(ny):
+                        mp = mesh.copy(); mp[i, j, 2] += h; mm = mesh.copy(); mm[i, j, 2] -= h
+                        cd[:, i, j, 2] = (f(mp) - f(mm)) / (2 * h)
+                err = float(np.abs(Jr[:, [0, nx - 1], :, 2] - cd[:, [0, nx - 1], :, 2]).max())
+                scale = float(np.abs(Jr[:, :, :, 2]).max())
+                O["cases"] += 1; O["worst"] = max(O["worst"], err)
+                if err > 1e-4 * max(scale, 1e-3):
+                    O["failures"].append({"key": "C01:WingboxGeometry.compute:twist-measure-kink-at-zero-twist",
+                                          "case": {"kind": kind, "nx": nx, "ny": ny, "mesh": mesh.tolist()},
+                                          "reported_dtwist_dz_max": scale, "central_difference_max": float(np.abs(cd).max()),
+                                          "note": "fem_twists = |twist| (arccosine): one-sided slopes +-1/c, no derivative; a rigid vertical translation of a section has reported sensitivity != 0"})
+                else:
+                    O["ok"] += 1
+                R.mark("c01wbflat", kind, nx, ny)
+    finally:
+        core.FD_ENABLED = saved
